@@ -16,7 +16,7 @@
    This file contains only the property theorems; proofs are in Proofs/HashEnc*.v. *)
 From Coq Require Import ZArith List Bool Sorting.Permutation.
 Require Import JV.Base.C08_MD5 JV.Model.HashEnc JV.Proofs.HashEncDefs JV.Proofs.HashEncOrder
-               JV.Proofs.HashEncKeys JV.Proofs.HashEncExamples.
+               JV.Proofs.HashEncKeys JV.Proofs.HashEncExamples JV.Proofs.HashEncInj.
 Import ListNotations.
 Open Scope Z_scope.
 
@@ -62,6 +62,22 @@ Proof. exact (conj ex_v_good (conj ex_v_veq (conj ex_v_neq ex_v_stream))). Qed.
 
 (* ---------------------------------------------------------------- type discrimination / injectivity *)
 
+(* injectivity up to iteration order: on the universe, equal streams come only from values that
+   differ by the iteration order of their dicts / sets / frozensets.  [fits] = every length, int and
+   memo index fits the field the protocol gives it (< 2^32 bytes per str/bytes/int, < 2^32 containers,
+   float patterns < 2^64).  No hypothesis on md5. *)
+Theorem C08_inj_sorted : forall md5 a b s, good a -> good b -> fits md5 a -> fits md5 b ->
+  enc_top md5 a = Some s -> enc_top md5 b = Some s -> veq a b.
+Proof. exact enc_top_inj. Qed.
+
+(* non-vacuity of the hypotheses of C08_inj_sorted *)
+Example C08_inj_example : good inj_ex /\ forall md5, fits md5 inj_ex.
+Proof. exact inj_example. Qed.
+
+(* values of the universe always hash (no exception) *)
+Theorem C08_total : forall md5 a, good a -> enc_top md5 a <> None.
+Proof. exact enc_top_total. Qed.
+
 Theorem C08_types_scalars : forall md5,
   enc_top md5 (VInt 1) <> enc_top md5 (VFloat float_one) /\
   enc_top md5 (VInt 1) <> enc_top md5 (VBool true) /\
@@ -86,6 +102,15 @@ Proof. exact types_empties. Qed.
 Theorem C08_types_set_frozenset : forall md5 l s,
   enc_top md5 (VSet l) = Some s -> enc_top md5 (VFrozenSet l) <> Some s.
 Proof. exact types_set_frozenset. Qed.
+
+(* list vs tuple with the same items; a value never collides with one of another kind *)
+Theorem C08_types_list_tuple : forall md5 l s, good (VList l) -> fits md5 (VList l) -> fits md5 (VTuple l) ->
+  enc_top md5 (VList l) = Some s -> enc_top md5 (VTuple l) <> Some s.
+Proof. exact types_list_tuple. Qed.
+
+Theorem C08_types_kind : forall md5 a b s, good a -> good b -> fits md5 a -> fits md5 b ->
+  enc_top md5 a = Some s -> enc_top md5 b = Some s -> same_kind a b.
+Proof. exact enc_top_same_kind. Qed.
 
 (* ---------------------------------------------------------------- refutations (known findings) *)
 
